@@ -14,6 +14,7 @@ import NngModel.Proofs.Base64
 import NngModel.Model.Base64
 import NngModel.Spec.Base64
 import NngModel.Spec.HttpChunk
+import NngModel.Generated.C16
 namespace Nng.C16
 open Nng.Ws
 
